@@ -14,7 +14,7 @@ class C16(Prop):
                   'repeated process() or >=2 instances; distinct = distinct history')
 
     def streams(self, rng, tier):
-        n = 150 if tier == 'quick' else scale(15000)
+        n = 400 if tier == 'quick' else scale(15000)
         hs = []
         d0 = M.enc_root([{'k': 'component', 'name': ['C'], 'ports': []}, {'k': 'enum', 'name': ['E'], 'fields': ['a']}])
         hs.append({'op': 'c16', 'docs': [d0], 'ops': [['new', 0, 0], ['process', 0], ['process', 0]]})
